@@ -276,6 +276,9 @@ func (rw *regWorld) dump() (impl, ref string) {
 	for _, s := range []string{"L1lc", "L2lc"} {
 		id = append(id, s+"="+world.JSON(rw.local(s).DataCopy(fnLimit)))
 		md = append(md, s+"="+world.JSON(limitList(m.data[s], 1, 2)))
+		// functions no remote write may change: announced read-only, and not announced at all
+		id = append(id, s+".desc="+world.JSON(rw.local(s).DataCopy(fnLimitDesc))+" "+s+".constr="+world.JSON(rw.local(s).DataCopy(model.FunctionTypeLoadControlLimitConstraintsListData)))
+		md = append(md, s+".desc=null "+s+".constr=null")
 	}
 	// local client bookkeeping and pending approvals
 	var il, ml []string
@@ -401,7 +404,44 @@ func (rw *regWorld) apply(op string, judge bool) (viol []string, digest string, 
 	var exp []expOut
 	expEv := map[string]int{}
 	addV := func(s string) { viol = append(viol, s) }
+	asked := judge
 	switch f[0] {
+	case "hs":
+		// peer p connects; before it has answered the discovery read, peer q's connection is removed; then p
+		// announces itself. p must be served like any newly connected peer: the stack subscribes to its
+		// node management and asks for its use cases exactly once.
+		p, q := f[1], f[2]
+		if m.conn[p] || !m.conn[q] {
+			break
+		}
+		effect = true
+		judge = false
+		ents := []world.EntSpec{clientEntity([]uint{1}), clientEntity([]uint{2})}
+		pe := w.Connect(p, "d"+p)
+		pe.Ents = ents
+		rt.WaitIdle()
+		rw.apply("disc:"+q, false)
+		m2 := w.Mark()
+		pe.Deliver(pe.DiscoveryReply(ents))
+		rt.WaitIdle()
+		nsub, nuc := 0, 0
+		for _, o := range w.Since(m2) {
+			if o.Conn != pe.W.Name {
+				addV("the announcement of a peer made the stack write to another connection | " + o.String() + " op=" + op)
+				continue
+			}
+			switch {
+			case o.Class == "call" && o.Fn == "NodeManagementSubscriptionRequestCall":
+				nsub++
+			case o.Class == "read" && o.Fn == "NodeManagementUseCaseData":
+				nuc++
+			}
+		}
+		if nsub != 1 || nuc != 1 {
+			addV(fmt.Sprintf("a peer that announces itself after another peer was removed is not served like a new peer | nodeManagement subscription requests=%d use-case reads=%d (want 1 and 1) op=%s", nsub, nuc, op))
+		}
+		m.conn[p] = true
+		m.ents[p] = map[uint]bool{0: true, 1: true, 2: true}
 	case "sub", "bind", "unsub", "unbind":
 		p, c, s := f[1], f[2], f[3]
 		pe := w.Peers[p]
@@ -479,6 +519,10 @@ func (rw *regWorld) apply(op string, judge bool) (viol []string, digest string, 
 		if fn == "limit" {
 			cmd = model.CmdType{LoadControlLimitListData: limitList(v, 1, 2)}
 			writable = s == "L1lc" || s == "L2lc"
+		} else if fn == "constr" {
+			// a function of the feature type that the server feature does not announce at all
+			cmd = model.CmdType{LoadControlLimitConstraintsListData: &model.LoadControlLimitConstraintsListDataType{LoadControlLimitConstraintsData: []model.LoadControlLimitConstraintsDataType{
+				{LimitId: util.Ptr(model.LoadControlLimitIdType(1)), ValueStepSize: model.NewScaledNumberType(float64(v))}}}}
 		} else {
 			cmd = model.CmdType{LoadControlLimitDescriptionListData: limitDescList(v)}
 		}
@@ -620,6 +664,9 @@ func (rw *regWorld) apply(op string, judge bool) (viol []string, digest string, 
 	}
 	digest = f[0] + ":" + fmt.Sprint(effect) + ":" + fmt.Sprint(len(outs))
 	if !judge {
+		if asked {
+			return viol, digest, effect
+		}
 		return nil, digest, effect
 	}
 	for _, s := range matchOuts(outs, exp) {
@@ -712,32 +759,42 @@ func stateDiff(impl, ref string) string {
 
 // deliverOnly builds and delivers the datagram of a message operation without
 // touching the reference model (used by threads of schedule scenarios).
-func (rw *regWorld) deliverOnly(op string) {
+func (rw *regWorld) deliverOnly(op string) { rw.prepare(op)() }
+
+// prepare builds the message of an operation now (the peer's message counter advances in the
+// calling thread) and returns the step that hands it to the stack.
+func (rw *regWorld) prepare(op string) func() {
 	w := rw.w
 	f := strings.Split(op, ":")
 	switch f[0] {
 	case "sub", "bind":
 		p, c, s, t, withDev := f[1], f[2], f[3], typeVars[f[4]], f[5] == "d"
 		pe := w.Peers[p]
+		var d model.DatagramType
 		if f[0] == "bind" {
-			pe.Deliver(pe.BindCall(cliAddr(p, c, withDev), srvAddr(s, withDev), t))
+			d = pe.BindCall(cliAddr(p, c, withDev), srvAddr(s, withDev), t)
 		} else {
-			pe.Deliver(pe.SubscribeCall(cliAddr(p, c, withDev), srvAddr(s, withDev), t))
+			d = pe.SubscribeCall(cliAddr(p, c, withDev), srvAddr(s, withDev), t)
 		}
+		return func() { pe.Deliver(d) }
 	case "unsub", "unbind":
 		p, c, s, withDev := f[1], f[2], f[3], f[4] == "d"
 		pe := w.Peers[p]
+		var d model.DatagramType
 		if f[0] == "unbind" {
-			pe.Deliver(pe.UnbindCall(cliAddr(p, c, withDev), srvAddr(s, withDev)))
+			d = pe.UnbindCall(cliAddr(p, c, withDev), srvAddr(s, withDev))
 		} else {
-			pe.Deliver(pe.UnsubscribeCall(cliAddr(p, c, withDev), srvAddr(s, withDev)))
+			d = pe.UnsubscribeCall(cliAddr(p, c, withDev), srvAddr(s, withDev))
 		}
+		return func() { pe.Deliver(d) }
 	case "write":
 		p, c, s, ack, v := f[1], f[2], f[3], f[5] == "ack", atoi(f[6])
 		pe := w.Peers[p]
-		pe.Deliver(pe.Datagram(cliAddr(p, c, true), srvAddr(s, true), model.CmdClassifierTypeWrite, ack, nil, model.CmdType{LoadControlLimitListData: limitList(v, 1, 2)}))
+		d := pe.Datagram(cliAddr(p, c, true), srvAddr(s, true), model.CmdClassifierTypeWrite, ack, nil, model.CmdType{LoadControlLimitListData: limitList(v, 1, 2)})
+		return func() { pe.Deliver(d) }
 	case "set":
-		rw.local(f[1]).SetData(fnLimit, limitList(atoi(f[2]), 1, 2))
+		fl, data := rw.local(f[1]), limitList(atoi(f[2]), 1, 2)
+		return func() { fl.SetData(fnLimit, data) }
 	case "entrm":
 		p, e := f[1], uint(atoi(f[2]))
 		pe := w.Peers[p]
@@ -747,8 +804,35 @@ func (rw *regWorld) deliverOnly(op string) {
 			Filter:                              []model.FilterType{*model.NewFilterTypePartial()},
 			NodeManagementDetailedDiscoveryData: pe.DiscoveryData([]world.EntSpec{{Addr: []uint{e}, Type: model.EntityTypeTypeCEM}}, false, &st),
 		}
-		pe.Deliver(pe.Datagram(pe.NM(), world.LocalNM(), model.CmdClassifierTypeNotify, false, nil, cmd))
+		d := pe.Datagram(pe.NM(), world.LocalNM(), model.CmdClassifierTypeNotify, false, nil, cmd)
+		return func() { pe.Deliver(d) }
+	case "disc":
+		return func() { w.L.RemoveRemoteDeviceConnection(f[1]) }
+	case "lupd":
+		// local partial update of one item: lupd:<server>:<id>:<value>:<t|f|n changeability>
+		fl := rw.local(f[1])
+		it := model.LoadControlLimitDataType{LimitId: util.Ptr(model.LoadControlLimitIdType(atoi(f[2]))), Value: model.NewScaledNumberType(float64(1000 * atoi(f[3])))}
+		if f[4] != "n" {
+			it.IsLimitChangeable = util.Ptr(f[4] == "t")
+		}
+		data := &model.LoadControlLimitListDataType{LoadControlLimitData: []model.LoadControlLimitDataType{it}}
+		return func() { fl.UpdateData(fnLimit, data, model.NewFilterTypePartial(), nil) }
+	case "ldel":
+		// local delete of one item: ldel:<server>:<id>
+		fl := rw.local(f[1])
+		fd := &model.FilterType{CmdControl: &model.CmdControlType{Delete: &model.ElementTagType{}},
+			LoadControlLimitListDataSelectors: &model.LoadControlLimitListDataSelectorsType{LimitId: util.Ptr(model.LoadControlLimitIdType(atoi(f[2])))}}
+		return func() { fl.UpdateData(fnLimit, &model.LoadControlLimitListDataType{}, nil, fd) }
+	case "pwrite":
+		// partial remote write of one item's value: pwrite:<peer>:<client>:<server>:<id>:<value>
+		p, c, sv := f[1], f[2], f[3]
+		pe := w.Peers[p]
+		data := &model.LoadControlLimitListDataType{LoadControlLimitData: []model.LoadControlLimitDataType{
+			{LimitId: util.Ptr(model.LoadControlLimitIdType(atoi(f[4]))), Value: model.NewScaledNumberType(float64(1000 * atoi(f[5])))}}}
+		d := pe.Datagram(cliAddr(p, c, true), srvAddr(sv, true), model.CmdClassifierTypeWrite, true, nil,
+			model.CmdType{Function: util.Ptr(fnLimit), Filter: []model.FilterType{*model.NewFilterTypePartial()}, LoadControlLimitListData: data})
+		return func() { pe.Deliver(d) }
 	default:
-		panic("deliverOnly: unsupported op " + op)
+		panic("prepare: unsupported op " + op)
 	}
 }
